@@ -34,3 +34,10 @@ func main() {
 	f(rng, *n, fs.Args())
 	sx.Flush()
 }
+
+func os_stderr() *os.File { return os.Stderr }
+
+func exitCode(c int) {
+	sx.Flush()
+	os.Exit(c)
+}
